@@ -357,6 +357,9 @@ theorem tsoglobal_structure_facts :
     PdModel.Generated.TsoGlobal.differentiateShape = true ∧
     PdModel.Generated.TsoGlobal.generateDifferentiates = true ∧
     PdModel.Generated.TsoGlobal.overflowCheckedOnDifferentiated = true ∧
+    -- the unsynchronised path is taken only when no dc-location exists; `skipCheck` is declared inside the retry loop
+    PdModel.Generated.TsoGlobal.plainPathOnlyWithoutDCs = true ∧
+    PdModel.Generated.TsoGlobal.skipCheckFreshPerAttempt = true ∧
     PdModel.Generated.TsoGlobal.syncMaxRetryCount = 2 := by decide
 
 end PdModel.TsoGlobal
